@@ -416,9 +416,13 @@ static void mi_segment_os_free(mi_segment_t* segment, mi_segments_tld_t* tld) {
     // _mi_os_unprotect(segment, mi_segment_size(segment)); // ensure no more guard pages are set
     // unprotect the guard pages; we cannot just unprotect the whole segment size as part may be decommitted
     size_t os_pagesize = _mi_os_page_size();
-    _mi_os_unprotect((uint8_t*)segment + mi_segment_info_size(segment) - os_pagesize, os_pagesize);
+    const bool ok1 = _mi_os_unprotect((uint8_t*)segment + mi_segment_info_size(segment) - os_pagesize, os_pagesize);
     uint8_t* end = (uint8_t*)segment + mi_segment_size(segment) - os_pagesize;
-    _mi_os_unprotect(end, os_pagesize);
+    const bool ok2 = _mi_os_unprotect(end, os_pagesize);
+    if (!ok1 || !ok2) {
+      // the OS refused to make a guard page accessible again: do not hand the memory back for reuse (the next user would fault on it)
+      return;
+    }
   }
 
   // purge delayed decommits now? (no, leave it to the arena)
